@@ -66,6 +66,11 @@ def apply_obj(obj, what, arg=None):
         return copy.deepcopy(obj)
     if what == "pickle":
         return pickle.loads(pickle.dumps(obj))
+    if what == "rewrap_bban":
+        # hand the object's own BBAN to the BBAN constructor under another country: must not alter the original object
+        from schwifty import BBAN
+        b = obj.bban if type(obj).__name__ == "IBAN" else obj
+        return BBAN(arg["cc"], b)
     if what == "national":
         return obj.bban.validate_national_checksum() if type(obj).__name__ == "IBAN" else obj.validate_national_checksum()
     return getattr(obj, what)          # property read: is_valid, bic, bank, bank_name, formatted, domestic_bank_codes, ...
@@ -85,7 +90,14 @@ def run_call(d, obj=None):
     if op == "from_components":
         return BBAN.from_components(d["cc"], **d["values"])
     if op == "from_bban":
-        return IBAN.from_bban(d["cc"], d["bban"])
+        b = BBAN(d.get("bban_cc", d["cc"]), d["bban"]) if d.get("as_object") else d["bban"]
+        return IBAN.from_bban(d["cc"], b, validate_bban=d.get("validate_bban", False))
+    if op == "bban":
+        # BBAN(cc, value) where value may be the BBAN object of a stored IBAN ('obj' given) or a plain text
+        return BBAN(d["cc"], d["text"])
+    if op == "iban_of_object":
+        inner = IBAN(d["text"], allow_invalid=True)
+        return IBAN(inner, validate_bban=d.get("validate_bban", False))
     if op == "random":
         cls = IBAN if d.get("cls", "IBAN") == "IBAN" else BBAN
         return cls.random(d["cc"], random=Random(d["seed"]), use_registry=d.get("use_registry", True), **d.get("pins", {}))
